@@ -929,6 +929,23 @@ def r27(ctx: Ctx) -> RuleReport:
     from ..resolve import local_callees
     rc_funcs = [f for f in local_callees(ctx, rc, depth=1) if f.qualname != 'configure']
     comps = [(f, n) for f in rc_funcs for n in walk_local(f.node) if isinstance(n, ast.ListComp)]
+    # filterfalse(<predicate>, xs) with a predicate `return isinstance(x, C)` is the comprehension [e for e in xs if not isinstance(e, C)]
+    for f in rc_funcs:
+        for n in walk_local(f.node):
+            if isinstance(n, ast.Call) and norm(n.func) in ('filterfalse', 'itertools.filterfalse') and len(n.args) == 2 and isinstance(n.args[0], ast.Name):
+                pf = ctx.repo.maybe_func(f.module.name, n.args[0].id)
+                if pf is None or not pf.positional:
+                    continue
+                body_ = [x for x in pf.node.body if not (isinstance(x, ast.Expr) and isinstance(x.value, ast.Constant))]
+                if len(body_) == 1 and isinstance(body_[0], ast.Return) and isinstance(body_[0].value, ast.Call) and norm(body_[0].value.func) == 'isinstance' \
+                        and len(body_[0].value.args) == 2 and norm(body_[0].value.args[0]) == pf.positional[0]:
+                    e_ = ast.Name(id='_e', ctx=ast.Load())
+                    test_ = ast.UnaryOp(op=ast.Not(), operand=ast.Call(func=ast.Name(id='isinstance', ctx=ast.Load()), args=[e_, body_[0].value.args[1]], keywords=[]))
+                    synth = ast.ListComp(elt=ast.Name(id='_e', ctx=ast.Load()),
+                                         generators=[ast.comprehension(target=ast.Name(id='_e', ctx=ast.Store()), iter=n.args[1], ifs=[test_], is_async=0)])
+                    ast.copy_location(synth, n)
+                    ast.fix_missing_locations(synth)
+                    comps.append((f, synth))
     found = False
     for f, c in comps:
         for g in c.generators:
